@@ -31,7 +31,10 @@ import (
 	"pgregory.net/rapid"
 )
 
-func TestMain(m *testing.M) { vh.Main(m) }
+func TestMain(m *testing.M) {
+	gen.EnableGuards() // input slices get guarded spare capacity and a content checksum (see gen/guard.go)
+	vh.Main(m)
+}
 func TestReplay(t *testing.T) { vh.Replay(t) }
 func TestCorpus(t *testing.T) { vh.Corpus(t) }
 
